@@ -140,11 +140,17 @@ def benign_edges(ctx, q, ev):
 
 def analyse(ctx, entries):
     """-> list of site records (one per entry point x call-site description)."""
-    if hasattr(ctx, '_site_recs') and ctx._site_recs[0] == tuple(e[0] for e in entries):
-        return ctx._site_recs[1]
+    cache = getattr(ctx, '_site_recs', None)
+    if cache is None:
+        cache = ctx._site_recs = {}
+    ck = tuple(e[0] for e in entries)
+    if ck in cache:
+        return cache[ck]
     recs = []
-    for name, key, mode in entries:
-        q = ctx.explore(key, mode=mode)
+    for ent in entries:
+        name, key, mode = ent[:3]
+        kwargs = ent[3] if len(ent) > 3 else {}
+        q = ctx.explore(key, mode=mode, **kwargs)
         oks = set(q.terminals(lambda ev: ev['k'] == 'ret' and ev.get('variant') != 'Err'))
         errs = q.terminals(lambda ev: ev['k'] == 'ret' and ev.get('variant') == 'Err')
         panics = q.terminals(lambda ev: ev['k'] == 'panic')
@@ -209,5 +215,20 @@ def analyse(ctx, entries):
                 for p in panics:
                     if p in rE and q.g.term[p]['site'][:2] not in ok_sites:
                         rec['panic_on_err'].append((edges[0], p))
-    ctx._site_recs = (tuple(e[0] for e in entries), recs)
+    cache[ck] = recs
     return recs
+
+
+def e2e_entries(ctx):
+    """stacked entry points, fully inlined, per write-side implementor and checker setting (thorough tier)."""
+    from rules import e2e
+    wt, rt = ctx.role('write_trait'), ctx.role('read_trait')
+    out = []
+    for name, k, _mode in stack_level_entries(ctx):
+        if ctx.T[ctx.B[k]['impl_self_ty']].get('adt') != ctx.role('stack_cache'):
+            continue
+        for (w, r, chk) in e2e.configs(ctx):
+            out.append(('%s|write=%s|checker=%s' % (name, w, chk), k, 'full',
+                        {'facts': ctx.spec_facts(k, checker=chk, write_side='some'), 'tag': 'e2e-sites-%s-%s' % (w, chk),
+                         'dyn_force': {wt: w, rt: r}, 'max_nodes': 2500000}))
+    return out
